@@ -149,6 +149,7 @@ impl Stats {
         self.bump("busy_poll_time_jump", h.stats.busy_jumps);
         self.bump("slow_consumer_stall", h.stats.consumer_stalls);
         self.bump("stale_waker_ignored", h.stats.stale_wakes);
+        self.bump("log_after_callback_returned_span_kept_open", h.stats.late_logs);
         if plan.sched.fresh_wakers {
             self.bump("run_with_fresh_waker_per_poll", 1);
         }
